@@ -272,14 +272,64 @@ Proof.
     exists c1. split; [exact E1|]. split; [exact W1|]. unfold wok, keys_ok. rewrite S1, F1, K1. cbn. repeat split; auto.
 Qed.
 
+(* an application that only sends -- text, binary, ping, pong, in reaction to anything -- and never calls close() or leaves
+   the loop *)
+Definition send_action (a : action) : Prop :=
+  match a with ACall (CClose _ _) => False | AAbandon _ => False | _ => True end.
+Definition benign (app : strategy) : Prop := forall tr, Forall send_action (app tr).
+Lemma passive_benign app : passive app -> benign app.
+Proof. intros H tr. rewrite H. constructor. Qed.
+
+Lemma send_data_core c op p z : op <> OP_CLOSE ->
+  same_core c (fst (send_data c op p z)) /\ msg_events (k_tr (fst (send_data c op p z))) = msg_events (k_tr c).
+Proof.
+  intros Hop. unfold send_data. destruct (k_deflate c) as [d|]; [|apply send_frame_core; exact Hop].
+  destruct z; [|apply send_frame_core; exact Hop].
+  destruct (k_ctape c) as [|z0 zs]; cbv zeta; destruct (c_reset d);
+    match goal with |- context [send_frame ?c3 op true ?zz] =>
+      destruct (send_frame_core c3 op true zz Hop) as [A B];
+      (split; [eapply same_core_trans; [|exact A]; unfold same_core; cbn; tauto|rewrite B; reflexivity])
+    end.
+Qed.
+
+Lemma api_send_core c a : send_action (ACall a) ->
+  same_core c (fst (api_call c a)) /\ msg_events (k_tr (fst (api_call c a))) = msg_events (k_tr c).
+Proof.
+  intros Ha. destruct a; cbn [api_call send_action] in *; try contradiction;
+    try (apply send_data_core; discriminate);
+    (destruct (125 <? blen payload); [split; [apply same_core_refl|reflexivity]|apply send_frame_core; discriminate]).
+Qed.
+
+Lemma do_actions_benign acts : Forall send_action acts -> forall c,
+  snd (do_actions c acts) = SOk /\ same_core c (fst (do_actions c acts)) /\
+  msg_events (k_tr (fst (do_actions c acts))) = msg_events (k_tr c).
+Proof.
+  induction 1 as [|a acts Ha _ IH]; intros c; [repeat split; try reflexivity; apply same_core_refl|].
+  destruct a as [cl|w]; [|contradiction]. cbn [do_actions].
+  destruct (api_send_core c cl Ha) as [A B]. destruct (api_call c cl) as [c1 r]. cbn [fst] in *.
+  destruct (IH (emit (TCall r) c1)) as (S1 & S2 & S3).
+  split; [exact S1|]. split.
+  - eapply same_core_trans; [exact A|]. eapply same_core_trans; [|exact S2]. unfold same_core. cbn. tauto.
+  - rewrite S3. cbn. exact B.
+Qed.
+
 Section Delivery.
   Variable cf : cfg.
   Variable app : strategy.
-  Hypothesis app_passive : passive app.
+  Hypothesis app_benign : benign app.
   Hypothesis no_ping_timeout : zpos (c_ping_timeout cf) = None.
 
-  Lemma deliver_passive c e : deliver app c e = (emit (TEv e) c, SOk).
-  Proof. unfold deliver. rewrite app_passive. reflexivity. Qed.
+  (* handing an event to a sending application: the event, then its sends; the core is untouched *)
+  Lemma deliver_benign c e : exists c1, deliver app c e = (c1, SOk) /\ same_core c c1 /\
+    msg_events (k_tr c1) = (if is_msg_ev e then [e] else []) ++ msg_events (k_tr c).
+  Proof.
+    unfold deliver. set (c0 := emit (TEv e) c).
+    destruct (do_actions_benign (app (k_tr c0)) (app_benign _) c0) as (S1 & S2 & S3).
+    destruct (do_actions c0 (app (k_tr c0))) as [c1 st]. cbn [fst snd] in *. subst st.
+    exists c1. split; [reflexivity|]. split.
+    - eapply same_core_trans; [|exact S2]. unfold same_core, c0. cbn. tauto.
+    - rewrite S3. unfold c0. cbn. destruct (is_msg_ev e); reflexivity.
+  Qed.
 
   (* housekeeping with no armed timeout: never raises, never touches the core, adds no message event *)
   Lemma regular_quiet c : k_sent_close_time c = None ->
@@ -287,14 +337,17 @@ Section Delivery.
     msg_events (k_tr (fst (regular cf app c))) = msg_events (k_tr c).
   Proof.
     intros Hs. unfold regular. destruct (negb (k_ready c)); [repeat split; try reflexivity; apply same_core_refl|].
-    rewrite !deliver_passive, no_ping_timeout.
+    rewrite no_ping_timeout.
     set (t := session_time c).
     assert (P : exists c1, (match k_poll_start c with
-                 | Some ps => if (t - ps >=? c_poll cf)%Z then (emit (TEv EvPoll) (c <| k_poll_start := Some t |>), SOk) else (c, SOk)
-                 | None => (emit (TEv EvPoll) (c <| k_poll_start := Some t |>), SOk) end) = (c1, SOk)
+                 | Some ps => if (t - ps >=? c_poll cf)%Z then deliver app (c <| k_poll_start := Some t |>) EvPoll else (c, SOk)
+                 | None => deliver app (c <| k_poll_start := Some t |>) EvPoll end) = (c1, SOk)
                /\ same_core c c1 /\ msg_events (k_tr c1) = msg_events (k_tr c)).
-    { destruct (k_poll_start c) as [ps|]; [destruct (_ >=? _)%Z|]; eexists; (split; [reflexivity|]);
-        (split; [unfold same_core; cbn; tauto|reflexivity]). }
+    { assert (D : exists c1, deliver app (c <| k_poll_start := Some t |>) EvPoll = (c1, SOk) /\ same_core c c1 /\ msg_events (k_tr c1) = msg_events (k_tr c)).
+      { destruct (deliver_benign (c <| k_poll_start := Some t |>) EvPoll) as (c1 & E1 & C1 & M1). exists c1. split; [exact E1|].
+        split; [eapply same_core_trans; [|exact C1]; unfold same_core; cbn; tauto|exact M1]. }
+      destruct (k_poll_start c) as [ps|]; [destruct (_ >=? _)%Z|]; try exact D.
+      exists c. repeat split; try reflexivity. }
     destruct P as (c1 & E1 & C1 & M1). rewrite E1.
     set (c2 := if _ && _ then _ else c1).
     assert (C2 : same_core c1 c2 /\ msg_events (k_tr c2) = msg_events (k_tr c1)).
@@ -326,18 +379,25 @@ Section Delivery.
         exists c0. split; [|split; assumption].
         destruct r as [x|]; [|reflexivity]. destruct x; try reflexivity. congruence.
       - eexists. split; [reflexivity|]. split; [unfold same_core; cbn; tauto|reflexivity]. }
-    destruct O as (c0 & E0 & C0 & M0). rewrite E0. rewrite deliver_passive.
-    assert (Hs0 : k_sent_close_time (emit (TEv e) c0) = None).
-    { destruct C0 as (_&_&_&_&_&S&_). cbn. congruence. }
-    destruct (regular_quiet (emit (TEv e) c0) Hs0) as (R1 & R2 & R3).
-    destruct (regular cf app (emit (TEv e) c0)) as [c2 st2]. cbn [fst snd] in *. subst st2.
+    destruct O as (c0 & E0 & C0 & M0). rewrite E0.
+    destruct (deliver_benign c0 e) as (c1 & E1 & C1 & M1). rewrite E1.
+    assert (Hs1 : k_sent_close_time c1 = None).
+    { destruct C0 as (_&_&_&_&_&S0&_). destruct C1 as (_&_&_&_&_&S1&_). congruence. }
+    destruct (regular_quiet c1 Hs1) as (R1 & R2 & R3).
+    destruct (regular cf app c1) as [c2 st2]. cbn [fst snd] in *. subst st2.
     split; [reflexivity|]. split.
-    - eapply same_core_trans; [exact C0|]. eapply same_core_trans; [|exact R2]. unfold same_core. cbn. tauto.
-    - rewrite R3. cbn [msg_events k_tr emit]. change (k_tr (emit (TEv e) c0)) with (TEv e :: k_tr c0). cbn [msg_events].
-      rewrite M0. destruct (is_msg_ev e); reflexivity.
+    - eapply same_core_trans; [exact C0|]. eapply same_core_trans; [exact C1|exact R2].
+    - rewrite R3, M1, M0. reflexivity.
   Qed.
-  (* ---------- the same steps seen from the wire, when no automatic Ping is due (ping_rate = 0) ---------- *)
+
+  (* ---------- the same steps seen from the wire, for an application that writes nothing itself and when no automatic
+     Ping is due (ping_rate = 0) ---------- *)
+  Section Wire.
+  Hypothesis app_passive : passive app.
   Hypothesis rate0 : c_ping_rate cf = 0%Z.
+
+  Lemma deliver_passive c e : deliver app c e = (emit (TEv e) c, SOk).
+  Proof. unfold deliver. rewrite app_passive. reflexivity. Qed.
 
   Lemma regular_writes c : k_sent_close_time c = None ->
     writes (k_tr (fst (regular cf app c))) = writes (k_tr c) /\ (wok c -> wok (fst (regular cf app c))).
@@ -370,6 +430,7 @@ Section Delivery.
     destruct (regular cf app (emit (TEv e) c0)) as [c2 st2]. cbn [fst snd] in *. subst st2.
     split; [apply R2; exact K0|]. rewrite R1. exact W0.
   Qed.
+  End Wire.
 End Delivery.
 
 (* ====================================================================================================== *)
@@ -456,7 +517,7 @@ Fixpoint forms_ok (fs : list frame) (lfs : list lenform) : Prop :=
 Section Delivery2.
   Variable cf : cfg.
   Variable app : strategy.
-  Hypothesis app_passive : passive app.
+  Hypothesis app_benign : benign app.
   Hypothesis no_ping_timeout : zpos (c_ping_timeout cf) = None.
 
   (* the connection between two frames of a conforming stream: [open] = fragments of the open data message *)
@@ -477,12 +538,12 @@ Section Delivery2.
     (match e with EvPing p => blen p <= 125 | EvClosing _ _ | EvClosed _ _ | EvReady _ _ => False | _ => True end) ->
     exists c1, feed_yield cf app c e (fun c1 => (c1, SOk)) = (c1, SOk) /\ same_core c c1 /\
                msg_events (k_tr c1) = (if is_msg_ev e then [e] else []) ++ msg_events (k_tr c) /\
-               (c_ping_rate cf = 0%Z -> c_auto_pong cf = true -> k_closed c = false -> k_closing c = false -> wok c ->
+               (passive app -> c_ping_rate cf = 0%Z -> c_auto_pong cf = true -> k_closed c = false -> k_closing c = false -> wok c ->
                 wok c1 /\ writes (k_tr c1) = ev_reply e ++ writes (k_tr c)).
   Proof.
     intros Hs He. unfold feed_yield.
-    destruct (in_feed_yield_msg cf app app_passive no_ping_timeout c e Hs He) as (A & B & C).
-    pose proof (fun r a cl cg w => in_feed_yield_writes cf app app_passive no_ping_timeout r c e a cl cg Hs w He) as D.
+    destruct (in_feed_yield_msg cf app app_benign no_ping_timeout c e Hs He) as (A & B & C).
+    pose proof (fun pa r a cl cg w => in_feed_yield_writes cf app app_benign no_ping_timeout pa r c e a cl cg Hs w He) as D.
     destruct (in_feed_yield cf app c e) as [c1 st]. cbn [fst snd] in *. subst st. exists c1. auto.
   Qed.
 
@@ -525,7 +586,7 @@ Section Delivery2.
                k_sent_close_time c1 = None /\ k_frames c1 = open1 /\ Forall (fun f => f_rsv1 f = false) open1 /\
                data_head open1 /\
                msg_events (k_tr c1) = rev (map ev_of ms) ++ msg_events (k_tr c) /\ k_sock c1 = k_sock c /\
-               wfacts cf c c1 ms.
+               (passive app -> wfacts cf c c1 ms).
   Proof.
     intros Hcl Hcg Hdf Hsc Hfr Hop Hdh Hr1 Href. unfold ref1 in Href.
     destruct (negb _) eqn:Eb; [discriminate|]. apply negb_false_iff in Eb. apply andb_true_iff in Eb as [Eop Elen].
@@ -539,12 +600,12 @@ Section Delivery2.
                k_sent_close_time c1 = None /\ k_frames c1 = open /\ Forall (fun f => f_rsv1 f = false) open /\
                data_head open /\
                msg_events (k_tr c1) = [e] ++ msg_events (k_tr c) /\ k_sock c1 = k_sock c /\
-               (c_ping_rate cf = 0%Z -> c_auto_pong cf = true -> wok c -> wok c1 /\ writes (k_tr c1) = ev_reply e ++ writes (k_tr c))).
+               (passive app -> c_ping_rate cf = 0%Z -> c_auto_pong cf = true -> wok c -> wok c1 /\ writes (k_tr c1) = ev_reply e ++ writes (k_tr c))).
     { intros e m Hc Hb Hm He Hme. unfold on_item, stream_frame. rewrite Hc, Hb, Hm.
       destruct (yield_plain c e Hsc He) as (c1 & E1 & (S1&S2&S3&S4&S5&S6&S7&S8) & M1 & W1). rewrite E1, Hme in *.
       exists c1. split; [reflexivity|].
-      assert (Wf : c_ping_rate cf = 0%Z -> c_auto_pong cf = true -> wok c -> wok c1 /\ writes (k_tr c1) = ev_reply e ++ writes (k_tr c))
-        by (intros R A W; exact (W1 R A Hcl Hcg W)).
+      assert (Wf : passive app -> c_ping_rate cf = 0%Z -> c_auto_pong cf = true -> wok c -> wok c1 /\ writes (k_tr c1) = ev_reply e ++ writes (k_tr c))
+        by (intros Pa R A W; exact (W1 Pa R A Hcl Hcg W)).
       repeat (split; [first [congruence | assumption]|]). exact Wf. }
     assert (Hctl125 : is_control (f_op f) = true -> blen (f_payload f) <= 125).
     { intros Hc. unfold validate_err in Ev. cbn [hdr_of h_op h_fin h_r1 h_r2 h_r3] in Ev. rewrite Hc in Ev.
@@ -576,7 +637,7 @@ Section Delivery2.
               exists c1, (let '(c2, r) := build_message c0 fs in
                           match r with inl m => on_message cf app c2 m | inr e => let '(c3, st) := raise_in_feed cf app c2 e in (c3, st, FBreak) end)
                          = (c1, SOk, FContinue) /\ same_core c0 c1 /\ open1 = [] /\
-                         msg_events (k_tr c1) = rev (map ev_of ms) ++ msg_events (k_tr c) /\ wfacts cf c0 c1 ms).
+                         msg_events (k_tr c1) = rev (map ev_of ms) ++ msg_events (k_tr c) /\ (passive app -> wfacts cf c0 c1 ms)).
     { intros fs f0 rest0 Efs Hfs Htx Hkind c0 Hc0 Htr Hrf Hfin. rewrite Hfin in Hrf.
       rewrite (build_plain c0 fs f0 rest0 Efs Hfs). cbv zeta.
       assert (Hs0 : k_sent_close_time c0 = None) by (destruct Hc0 as (_&_&_&_&_&S&_); congruence).
@@ -591,12 +652,12 @@ Section Delivery2.
         unfold on_message.
         destruct (yield_plain c0 (EvText (payload_of fs)) Hs0 I) as (c1 & E1 & S1 & M1 & W1). rewrite E1.
         exists c1. split; [reflexivity|]. split; [exact S1|]. split; [reflexivity|]. split; [rewrite M1, Htr; reflexivity|].
-        intros R A W. exact (W1 R A Hcl0 Hcg0 W).
+        intros Pa R A W. exact (W1 Pa R A Hcl0 Hcg0 W).
       - rewrite Htx in Hkind. cbn [orb] in Hkind. rewrite Hkind. inversion Hrf; subst ms open1.
         unfold on_message.
         destruct (yield_plain c0 (EvBinary (payload_of fs)) Hs0 I) as (c1 & E1 & S1 & M1 & W1). rewrite E1.
         exists c1. split; [reflexivity|]. split; [exact S1|]. split; [reflexivity|]. split; [rewrite M1, Htr; reflexivity|].
-        intros R A W. exact (W1 R A Hcl0 Hcg0 W). }
+        intros Pa R A W. exact (W1 Pa R A Hcl0 Hcg0 W). }
     unfold on_item, stream_frame. rewrite Ectl, Hfr.
     destruct open as [|o0 orest].
     - (* first frame of a data message *)
@@ -641,15 +702,15 @@ Section Delivery2.
           unfold on_message.
           destruct (yield_plain c0 (EvText (payload_of ((o0 :: orest) ++ [f]))) Hs0 I) as (c1 & E1 & (S1&S2&S3&S4&S5&S6&S7&S8) & M1 & W1). rewrite E1.
           exists c1. split; [reflexivity|]. cbn in S1, S2, S3, S4, S5, S6, S8.
-          assert (Wf : wok c -> c_ping_rate cf = 0%Z -> c_auto_pong cf = true -> wok c1 /\ writes (k_tr c1) = writes (k_tr c))
-            by (intros W R A; exact (W1 R A Hcl Hcg W)).
+          assert (Wf : passive app -> wok c -> c_ping_rate cf = 0%Z -> c_auto_pong cf = true -> wok c1 /\ writes (k_tr c1) = writes (k_tr c))
+            by (intros Pa W R A; exact (W1 Pa R A Hcl Hcg W)).
           repeat split; try congruence; try constructor; try exact I; try (rewrite M1; reflexivity); try (apply Wf; assumption).
         * cbn [orb] in Hdh. rewrite Hdh. inversion Href; subst ms open1.
           unfold on_message.
           destruct (yield_plain c0 (EvBinary (payload_of ((o0 :: orest) ++ [f]))) Hs0 I) as (c1 & E1 & (S1&S2&S3&S4&S5&S6&S7&S8) & M1 & W1). rewrite E1.
           exists c1. split; [reflexivity|]. cbn in S1, S2, S3, S4, S5, S6, S8.
-          assert (Wf : wok c -> c_ping_rate cf = 0%Z -> c_auto_pong cf = true -> wok c1 /\ writes (k_tr c1) = writes (k_tr c))
-            by (intros W R A; exact (W1 R A Hcl Hcg W)).
+          assert (Wf : passive app -> wok c -> c_ping_rate cf = 0%Z -> c_auto_pong cf = true -> wok c1 /\ writes (k_tr c1) = writes (k_tr c))
+            by (intros Pa W R A; exact (W1 Pa R A Hcl Hcg W)).
           repeat split; try congruence; try constructor; try exact I; try (rewrite M1; reflexivity); try (apply Wf; assumption).
       + assert (Hopen : ms = [] /\ open1 = (o0 :: orest) ++ [f]).
         { change (is_text_msg ((o0 :: orest) ++ [f])) with (f_op o0 =? OP_TEXT) in Href.
@@ -765,7 +826,7 @@ Qed.
 Section Delivery3.
   Variable cf : cfg.
   Variable app : strategy.
-  Hypothesis app_passive : passive app.
+  Hypothesis app_benign : benign app.
   Hypothesis no_ping_timeout : zpos (c_ping_timeout cf) = None.
 
   Lemma at_boundary_ok s t u : at_boundary s t u -> fp_ok s.
@@ -785,7 +846,7 @@ Section Delivery3.
     ref_messages open fs = Some (ms, open') ->
     exists c', feedf cf app c (encode_all fs lfs) = (c', SOk) /\ idle c' open' /\ data_head open' /\
                msg_events (k_tr c') = rev (map ev_of ms) ++ msg_events (k_tr c) /\ k_sock c' = k_sock c /\
-               wfacts cf c c' ms.
+               (passive app -> wfacts cf c c' ms).
   Proof.
     induction fs as [|f rest IH]; intros lfs c open ms open' Hidle Hdh Hpl Hforms Href.
     - destruct lfs; [|contradiction]. cbn in Href. inversion Href; subst ms open'. cbn [encode_all].
@@ -793,7 +854,7 @@ Section Delivery3.
       rewrite feedf_unfold by (eapply at_boundary_ok; exact Hab). unfold feed_body. rewrite Hcl.
       rewrite fp_pull_unfold by (eapply at_boundary_ok; exact Hab). unfold pull_body.
       rewrite set_ps_same. exists c. split; [reflexivity|]. split; [exact Hidle|]. split; [exact Hdh|].
-      split; [reflexivity|]. split; [reflexivity|apply wfacts_refl].
+      split; [reflexivity|]. split; [reflexivity|intros _; apply wfacts_refl].
     - destruct lfs as [|lf lfs]; [contradiction|]. destruct Hforms as [Hform Hforms].
       inversion Hpl as [|? ? Hpf Hprest]; subst.
       cbn [ref_messages] in Href.
@@ -806,7 +867,7 @@ Section Delivery3.
                   (ref1_valid _ _ _ E1) Hval) as (s' & Hpull & Hab').
       cbn [encode_all].
       rewrite feedf_unfold by (eapply at_boundary_ok; exact Hab). unfold feed_body. rewrite Hcl, Hpull.
-      destruct (frame_step cf app app_passive no_ping_timeout (c <| k_ps := s' |>) open f ms1 open1)
+      destruct (frame_step cf app app_benign no_ping_timeout (c <| k_ps := s' |>) open f ms1 open1)
         as (c1 & Eitem & S1 & S2 & S3 & S4 & S5 & S6 & S7 & S8 & S9 & S10 & S11); auto.
       { destruct Hpf as (A & _). exact A. }
       rewrite Eitem.
@@ -814,9 +875,9 @@ Section Delivery3.
       { unfold idle. repeat split; auto. exists (u_after f (is_text_msg open) u u'). split.
         - rewrite S1. cbn. rewrite <- Hita. exact Hab'.
         - exact Hts. }
-      assert (S11' : wfacts cf c c1 ms1) by exact S11.
+      assert (S11' : passive app -> wfacts cf c c1 ms1) by exact S11.
       exists c'. split; [exact Efeed|]. split; [exact Hidle'|]. split; [exact Hdh'|].
-      split; [|split; [rewrite Hsock, S10; reflexivity|eapply wfacts_trans; eauto]].
+      split; [|split; [rewrite Hsock, S10; reflexivity|intros Pa; eapply wfacts_trans; [exact (S11' Pa)|exact (Hw' Pa)]]].
       rewrite Hmsgs, S9. cbn. rewrite map_app, rev_app_distr, app_assoc. reflexivity.
   Qed.
 
@@ -829,7 +890,7 @@ Section Delivery3.
     ref_messages open fs = Some (ms, open') -> concat ds = encode_all fs lfs ->
     exists c', feed_chunks cf app c ds = (c', SOk) /\ idle c' open' /\ data_head open' /\
                msg_events (k_tr c') = rev (map ev_of ms) ++ msg_events (k_tr c) /\ k_sock c' = k_sock c /\
-               wfacts cf c c' ms.
+               (passive app -> wfacts cf c c' ms).
   Proof.
     intros Hi Hd Hp Hf Hr Hc. rewrite feed_chunks_concat by (eapply idle_ok; exact Hi). rewrite Hc.
     eapply deliver_frames; eauto.
@@ -837,16 +898,27 @@ Section Delivery3.
   (* C14 for a whole stream: exactly one Pong per Ping, with the Ping's payload, in the order the Pings arrived, and nothing
      else is written by the library -- whatever the fragmentation, the interleaving and the cut into reads *)
   Corollary pongs_in_order fs lfs ds c open ms open' :
-    c_auto_pong cf = true -> c_ping_rate cf = 0%Z ->
+    passive app -> c_auto_pong cf = true -> c_ping_rate cf = 0%Z ->
     idle c open -> data_head open -> Forall plain fs -> forms_ok fs lfs ->
     ref_messages open fs = Some (ms, open') -> concat ds = encode_all fs lfs -> wok c ->
     exists c', feed_chunks cf app c ds = (c', SOk) /\ wok c' /\ writes (k_tr c') = rev (pong_replies ms) ++ writes (k_tr c).
   Proof.
-    intros Ha Hr Hi Hd Hp Hf Href Hc Hw.
+    intros Pa Ha Hr Hi Hd Hp Hf Href Hc Hw.
     destruct (deliver_frames_chunked fs lfs ds c open ms open' Hi Hd Hp Hf Href Hc) as (c' & E & _ & _ & _ & _ & W).
-    destruct (W Hr Ha Hw) as [W1 W2]. exists c'. auto.
+    destruct (W Pa Hr Ha Hw) as [W1 W2]. exists c'. auto.
   Qed.
 End Delivery3.
+
+Corollary pongs_in_order_passive cf app : passive app -> zpos (c_ping_timeout cf) = None ->
+  forall fs lfs ds c open ms open',
+  c_auto_pong cf = true -> c_ping_rate cf = 0%Z ->
+  idle c open -> data_head open -> Forall plain fs -> forms_ok fs lfs ->
+  ref_messages open fs = Some (ms, open') -> concat ds = encode_all fs lfs -> wok c ->
+  exists c', feed_chunks cf app c ds = (c', SOk) /\ wok c' /\ writes (k_tr c') = rev (pong_replies ms) ++ writes (k_tr c).
+Proof.
+  intros Pa Hz fs lfs ds c open ms open' Ha Hr Hi Hd Hp Hf Href Hc Hw.
+  exact (pongs_in_order cf app (passive_benign app Pa) Hz fs lfs ds c open ms open' Pa Ha Hr Hi Hd Hp Hf Href Hc Hw).
+Qed.
 
 (* ====================================================================================================== *)
 (* C01 at the level of the event loop: reads that cut the stream anywhere (also inside a frame), any waiting times,
@@ -877,7 +949,7 @@ Proof. intros Hok H. rewrite fp_pull_split by exact Hok. rewrite H. reflexivity.
 Section Delivery4.
   Variable cf : cfg.
   Variable app : strategy.
-  Hypothesis app_passive : passive app.
+  Hypothesis app_benign : benign app.
   Hypothesis no_ping_timeout : zpos (c_ping_timeout cf) = None.
 
   (* the connection somewhere in a conforming stream: [a] = the bytes of the first remaining frame already consumed *)
@@ -954,7 +1026,7 @@ Section Delivery4.
           rewrite app_nil_r, Eb in Hpull. rewrite <- (pull_resume s0 a (k_ps c) b Hok0 Hp) in Hpull.
           assert (Hokc : fp_ok (k_ps c)) by (pose proof (fp_pull_ok s0 a Hok0) as H; rewrite Hp in H; exact H).
           rewrite feedf_unfold by exact Hokc. unfold feed_body. rewrite Hcl, Hpull.
-          destruct (frame_step cf app app_passive no_ping_timeout (c <| k_ps := s' |>) open f ms1 open1)
+          destruct (frame_step cf app app_benign no_ping_timeout (c <| k_ps := s' |>) open f ms1 open1)
             as (c1 & Eitem & S1 & S2 & S3 & S4 & S5 & S6 & S7 & S8 & S9 & S10 & _); auto.
           { destruct Hpf as (A & _). exact A. }
           rewrite Eitem.
@@ -989,7 +1061,7 @@ Section Delivery4.
           rewrite Eb, <- app_assoc in Hpull2. rewrite <- (pull_resume s0 a (k_ps c) (b ++ l) Hok0 Hp) in Hpull2.
           rewrite Hab2 in Hpull2. rewrite Hab'. exact Hpull2. }
         assert (Hokc : fp_ok (k_ps c)) by (pose proof (fp_pull_ok s0 a Hok0) as H; rewrite Hp in H; exact H).
-        destruct (frame_step cf app app_passive no_ping_timeout (c <| k_ps := s' |>) open f ms1 open1)
+        destruct (frame_step cf app app_benign no_ping_timeout (c <| k_ps := s' |>) open f ms1 open1)
           as (c1 & Eitem & S1 & S2 & S3 & S4 & S5 & S6 & S7 & S8 & S9 & S10 & _); auto.
         { destruct Hpf as (A & _). exact A. }
         assert (Hidle1 : idle c1 open1).
@@ -1010,7 +1082,7 @@ End Delivery4.
 Section Delivery5.
   Variable cf : cfg.
   Variable app : strategy.
-  Hypothesis app_passive : passive app.
+  Hypothesis app_benign : benign app.
   Hypothesis no_ping_timeout : zpos (c_ping_timeout cf) = None.
 
   (* a quiet environment: time passes, the selector times out, or a read returns the next bytes of the stream *)
@@ -1032,7 +1104,7 @@ Section Delivery5.
   Proof.
     intros Hs. destruct (advance_core c dt) as [A M].
     assert (Hs' : k_sent_close_time (advance c dt) = None) by exact Hs.
-    destruct (regular_quiet cf app app_passive no_ping_timeout (advance c dt) Hs') as (R1 & R2 & R3).
+    destruct (regular_quiet cf app app_benign no_ping_timeout (advance c dt) Hs') as (R1 & R2 & R3).
     destruct (regular cf app (advance c dt)) as [c1 st]. cbn [fst snd] in *. subst st.
     exists c1. split; [reflexivity|]. split; [exact (same_core_trans _ _ _ A R2)|congruence].
   Qed.
@@ -1067,7 +1139,7 @@ Section Delivery5.
         assert (Hsock1 : k_sock c1 = true) by (destruct C1 as (_&_&_&_&_&_&_&S8); congruence).
         rewrite Hsock1.
         cbn [reads_of concat] in Hrem. rewrite <- app_assoc in Hrem.
-        destruct (feed_chunk cf app app_passive no_ping_timeout fs lfs (b0 :: d) c1 open a ms open' _
+        destruct (feed_chunk cf app app_benign no_ping_timeout fs lfs (b0 :: d) c1 open a ms open' _
                     (mid_same_core c c1 open fs lfs a C1 Hmid) Hdh Hpl Hforms Href Hrem)
           as (c2 & open2 & fs2 & lfs2 & a2 & m1 & m2 & Ef & Hmid2 & Hdh2 & Hpl2 & Hf2 & Href2 & Ems2 & Hrem2 & Hmsg2 & Hsock2).
         rewrite Ef.
@@ -1150,7 +1222,7 @@ Section Delivery6.
     rewrite (deliver_passive app app_passive).
     match goal with |- context [regular cf app ?x] => set (cr := x) end.
     assert (Hscr : k_sent_close_time cr = None) by exact Hsc.
-    destruct (regular_quiet cf app app_passive no_ping_timeout cr Hscr) as (R1 & (S1&S2&S3&S4&S5&S6&S7&S8) & R3).
+    destruct (regular_quiet cf app (passive_benign app app_passive) no_ping_timeout cr Hscr) as (R1 & (S1&S2&S3&S4&S5&S6&S7&S8) & R3).
     destruct (regular cf app cr) as [c2 st2]. cbn [fst snd] in *. subst st2.
     assert (Hokc2 : fp_ok (k_ps c2)) by (rewrite S1; unfold cr; cbn; rewrite Hab; unfold fp_ok, st_ok; cbn; lia).
     assert (F1 : k_closed c2 = false) by (rewrite S4; exact Hcl).
@@ -1202,7 +1274,7 @@ Section Delivery6.
     destruct reply as [|r0 reply']; [cbn in Hf; discriminate|].
     destruct (handshake_idle (advance c4 dt0) (r0 :: reply') proto) as (c5 & E5 & Hidle & M5 & S5); auto.
     rewrite E5.
-    destruct (loop_delivers_all cf app app_passive no_ping_timeout steps c5 [] fs lfs ms open' Hq Hidle I ltac:(rewrite S5; exact P7) Hpl Hforms Href Henc)
+    destruct (loop_delivers_all cf app (passive_benign app app_passive) no_ping_timeout steps c5 [] fs lfs ms open' Hq Hidle I ltac:(rewrite S5; exact P7) Hpl Hforms Href Henc)
       as (c' & El & _ & Hmsg).
     rewrite El. change (k_tr (emit TBlocked c')) with (TBlocked :: k_tr c'). cbn [msg_events]. rewrite Hmsg, M5.
     change (msg_events (k_tr (advance c4 dt0))) with (msg_events (k_tr c3)). rewrite P9. apply app_nil_r.
